@@ -63,6 +63,9 @@ POISONS = {
     'failing-row-in-list-comprehension': ['len([r for r in rows if r.nope > 0]) == 0', 'not [r.item for r in rows if r.amt > "x"]', 'len([r.nope for r in rows]) >= 0',
                                           'len([r for r in orders if r.item > 5]) == 0', '[r.amt + r.item for r in rows] == []',
                                           'len([s.nope for r in rows for s in orders]) == 0'],
+    # text the loader does not validate where it stands (a {tag} expression): outside the expression language or not parseable at all - it yields no tag,
+    # for the first transaction and for every later one (only placed as a dynamic tag; elsewhere the loader rejects the file)
+    'not-in-the-language': ['description[0:6]', 'amount ** 2 > 1', 'f"m"', '[amount][0]', '1 +', 'amount >> 1', 'amount +* 2', '~month', 'lambda: 1'],
     'falsy-non-number-divisor': ['amount / field.nope < 5', 'amount / "" < 5', 'amount % "" == 0', '10 / description.strip("abcdefghijklmnopqrstuvwxyzABCDEFGHIJKLMNOPQRSTUVWXYZ0123456789 .-*#\'") < 1'],
 }
 REF_DECIDES = {'failing-row-in-list-comprehension', 'unknown-name', 'falsy-non-number-divisor', 'division-type', 'arithmetic-on-strings', 'date-vs-blank-text'}
@@ -161,6 +164,8 @@ def judge(rec, rf, cls, poison, pos, txns, rows, tmp, rnd):
         # a bare generator expression is lazy: as an operand of and/or it is merely truthy and never consumed, so it does not fail there;
         # it only fails where it is the WHOLE value (which the evaluator materialises)
         pos = 'match-whole'
+    if cls == 'not-in-the-language':
+        pos = 'tag-extra'
     rf2, base, _, pos, ori = poisoned(rf, pos, poison, rnd)
     case0 = {'kind': 'poison', 'rf': rf.to_json(), 'cls': cls, 'poison': poison, 'pos': pos, 'rows': rows, 'rf2': rf2.to_json()}
     try:
